@@ -39,7 +39,7 @@ BLIND = {  # did the owning check exist, unchanged, before the change was seen?
     'b7-C13': 'yes - MISSED: the interpreter compared dataclass values on ALL fields and did not know compare=False; fixed in consteval/absint, C13.R1 then reports',
     'b7-C15': 'yes - caught (C15.R5 compatibility table is not symmetric)',
     'b7-C16': 'yes - caught (C16.R5 path-split rule and C02.R3: signature outputs not retargeted on the large-model path)',
-    'b8-C01': 'yes - caught (C01.R15 rewrite simulation via the emulated-subchannel replacement path; C02.R7, C19.R11)',
+    'b8-C01': 'yes - reported only through an incomplete stand-in (AttributeError = "not decided"); op replacement is now modelled in the bookkeeping simulation C01.R14 = C19.R10, which names the misplaced operator',
     'b8-C04': 'yes - caught (C04.R2 kernel constants)',
     'b8-C08': 'yes - MISSED; then C10.R8 = C08.R7 end-to-end calibrate-then-plan table (real content-map helper, registry functions and materialisers on a label model)',
     'b8-C09': 'yes - MISSED; then C09.R12 = C10.R9 signature -> subgraph table with signatures listed out of subgraph order',
